@@ -416,16 +416,17 @@ def clOK (keepSent : Bool) (sent got : List Field) (body : Bytes) : Bool :=
   | [v] => if keepSent then valuesOf nCL sent = [v] else parseNat? v = some body.length
   | _ => false
 
-/-- a request received on an HTTP/2 stream vs. the request sent on one -/
-def specReqH2 (sent got : Wire) : Bool :=
+/-- a request received on an HTTP/2 stream vs. the request sent on one: everything but the content-length clause -/
+def specReqH2core (sent got : Wire) : Bool :=
   pseudoGet got.pseudo nMethod = pseudoGet sent.pseudo nMethod &&
   pseudoGet got.pseudo nPath = pseudoGet sent.pseudo nPath &&
   pseudoGet got.pseudo nAuthority = pseudoGet sent.pseudo nAuthority &&
   pseudoGet got.pseudo nScheme = sHTTP && got.pseudo.length = 4 &&
   fieldsPreserved h2Exempt sent.fields got.fields &&
   got.fields.all (fun f => isLowerName f.1) &&
-  clOK false sent.fields got.fields sent.body &&
   got.body = sent.body && trailersSame sent.trailers got.trailers
+
+def specReqH2 (sent got : Wire) : Bool := specReqH2core sent got && clOK false sent.fields got.fields sent.body
 
 def specRespH2 (isHead : Bool) (sent got : Wire) : Bool :=
   let st := pseudoGet sent.pseudo nStatus
